@@ -215,6 +215,27 @@ def _task_streams(task):
                     t.violation({"kind": "segment-group-wrong", "n": n}, {"segments": list(seq), "via": task["via"], "combine": True},
                                 expected=[w.hex() for w in want], observed=[g.hex() if isinstance(g, bytes) else g for g in got],
                                 note="with combine_segmented_packets the yielded packets differ from the groups whose counts follow on")
+        # groups of different sizes one after the other in ONE generator (a long group, then a short one, and the other way round; two APIDs):
+        # each combined packet is its own segments and nothing else
+        long_g = [mk(b"\x81\x82\x83", apid=4, seqflags=1, seqcount=100), mk(b"\x84\x85\x86\x87", apid=4, seqflags=0, seqcount=101), mk(b"\x88\x89", apid=4, seqflags=2, seqcount=102)]
+        short_g = [mk(b"\x91", apid=4, seqflags=1, seqcount=200), mk(b"\x92", apid=4, seqflags=2, seqcount=201)]
+        other_g = [mk(b"\xa1", apid=6, seqflags=1, seqcount=300), mk(b"\xa2", apid=6, seqflags=2, seqcount=301)]
+        for order in itertools.permutations((long_g, short_g, other_g)):
+            for reps in (1, 2):
+                groups = list(order) * reps
+                stream = b"".join(p_ for g_ in groups for p_ in g_)
+                want = [g_[0] + b"".join(q[6:] for q in g_[1:]) for g_ in groups]
+                with observed_warnings():
+                    try:
+                        got = [bytes(x.raw_data) for x in defn.packet_generator(stream, combine_segmented_packets=True)]
+                    except Exception as e:  # noqa: BLE001
+                        got = [f"raised:{type(e).__name__}".encode()]
+                t.evals += 1
+                t.traces += 1
+                if got != want:
+                    t.violation({"kind": "segment-group-wrong", "sizes": True}, {"group_sizes": [len(g_) for g_ in groups], "via": task["via"], "combine": True},
+                                expected=[w.hex() for w in want], observed=[g.hex() if isinstance(g, bytes) else g for g in got],
+                                note="groups of different sizes in one generator: a combined packet is not exactly its own segments")
         # a raw packet object from the framer wrapped and parsed several times (header triage first, another definition object, ...)
         from space_packet_parser.packets import CCSDSPacket, ccsds_generator
         for pi, pb in enumerate(pal):
